@@ -14,6 +14,8 @@ type Judgement struct {
 	Obs string
 	// Violation is "" or the property clause that was broken.
 	Violation string
+	// Key optionally names the violation class canonically (known-findings key).
+	Key string
 	// Outcome is a coarse class for the vacuity statistics.
 	Outcome string
 	// Nontrivial marks executions that count for distinct_nontrivial.
@@ -72,9 +74,11 @@ func Explore(cfg Config) Stats {
 		cfg.Workers = 1
 	}
 	var mu sync.Mutex // guards st and Visit
-	level := []workItem{{nil, 0}}
-	for cost := 0; cost <= cfg.MaxCost && len(level) > 0; cost++ {
-		var next []workItem
+	// later[c] collects the prefixes whose schedule costs c deviations.
+	later := map[int][]workItem{0: {{nil, 0}}}
+	for cost := 0; cost <= cfg.MaxCost; cost++ {
+		level := later[cost]
+		delete(later, cost)
 		// Shared LIFO stack of the current level; items of the same cost that
 		// are discovered while processing are pushed on it.
 		stack := level
@@ -87,10 +91,7 @@ func Explore(cfg Config) Stats {
 			for k := len(it.prefix); k < len(res.Points); k++ {
 				p := res.Points[k]
 				for a := 1; a < int(p.N); a++ {
-					c := it.cost
-					if a >= int(p.CostlyFrom) {
-						c++
-					}
+					c := it.cost + p.Cost(a)
 					if c > cfg.MaxCost {
 						continue
 					}
@@ -100,7 +101,7 @@ func Explore(cfg Config) Stats {
 					if c == cost {
 						stack = append(stack, workItem{child, c})
 					} else {
-						next = append(next, workItem{child, c})
+						later[c] = append(later[c], workItem{child, c})
 					}
 				}
 			}
@@ -192,7 +193,6 @@ func Explore(cfg Config) Stats {
 			break
 		}
 		st.CompletedBound = cost
-		level = next
 	}
 	return st
 }
